@@ -147,7 +147,9 @@ fn check_doc(ctx: &mut Ctx, rs: &RefSpec, doc: &Vec<Node>) {
                 WCall::Tag(NItem::End(ID_K), WOpt::Width(2)),
                 WCall::Tag(NItem::Leaf(ID_S, crate::refmodel::Val::S("q".repeat(127))), WOpt::Width(1)),
             ];
-            'outer: for pos in 0..=base_calls.len() {
+            // (thorough: forests of <= 4 elements only; the 5-element x 2-deviation documents add nothing to this clause)
+            let limit = if ctx.quick() || gen::count_nodes(doc) <= 4 { base_calls.len() + 1 } else { 0 };
+            'outer: for pos in 0..limit {
                 for f in &menu {
                     let mut calls = base_calls.clone();
                     calls.insert(pos, f.clone());
